@@ -39,7 +39,7 @@ type wc struct {
 }
 
 func (w *wc) Write(b []byte) (int, error) { return w.b.Write(b) }
-func (w *wc) Close() error               { w.p.Closed[w.i] = true; return nil }
+func (w *wc) Close() error                { w.p.Closed[w.i] = true; return nil }
 
 func (p *Pool) GetWriter(i int64) (io.WriteCloser, error) {
 	b := &bytes.Buffer{}
